@@ -35,6 +35,21 @@ def reproduces(f):
             chk.add(r.initialize()._solver.assertions())
             return str(chk.check())
         return verdict(f["script"]) == e["result"] and verdict(f["script2"]) == e["result2"]
+    if e["kind"] == "excel_raises":
+        import os, shutil, tempfile
+        import processscheduler as ps
+        with smrun.silent():
+            sol = ps.SchedulingSolver(problem=real.problem).solve()
+        if not sol:
+            return False
+        tmp = tempfile.mkdtemp(prefix="psfind_")
+        try:
+            sol.to_excel_file(os.path.join(tmp, "x.xlsx"))
+            return False
+        except Exception as ex:  # noqa: BLE001
+            return type(ex).__name__ == e["raises"]
+        finally:
+            shutil.rmtree(tmp, ignore_errors=True)
     if e["kind"] in ("solution", "excel_name_erased"):
         import processscheduler as ps
         with smrun.silent():
